@@ -33,6 +33,7 @@ func kindWidth(k string) int {
 type primErr struct{ class string }
 
 func guard(f func() error) (class string, msg string) {
+	defer end()
 	defer func() {
 		if r := recover(); r != nil {
 			class, msg = "panic", fmt.Sprint(r)
